@@ -7,6 +7,8 @@ import GoImap.Spec.NumSet
 import GoImap.Lemmas.NumSetMerge
 import GoImap.Lemmas.NumSetCanon
 import GoImap.Lemmas.NumSetSearch
+import GoImap.Lemmas.NumSetContains
+import GoImap.Lemmas.NumSetNums
 namespace GoImap.C15
 open GoImap.NumSet GoImap.NumSetSpec
 
@@ -69,5 +71,27 @@ theorem search_first (s : NumSet.Set) (q : Nat) (hc : canonical s = true) :
 example : canonical [⟨1, 3⟩, ⟨5, 5⟩, ⟨9, 0⟩] = true ∧
     search [⟨1, 3⟩, ⟨5, 5⟩, ⟨9, 0⟩] 4 = (1, false) ∧
     search [⟨1, 3⟩, ⟨5, 5⟩, ⟨9, 0⟩] 12 = (2, true) := by decide
+
+/-! ### 5. `Nums` enumerates a static canonical set in ascending order -/
+
+theorem nums_spec (s : NumSet.Set) (hc : canonical s = true) (hd : dynamic s = false) :
+    nums s = some (enumerate s) ∧
+    List.Pairwise (· < ·) (enumerate s) ∧
+    (∀ q, 0 < q → q < W → (q ∈ enumerate s ↔ contains s q = true)) := by
+  have h := (canonical_iff s).1 hc
+  have hs := canon_allStatic s 0 h hd
+  refine ⟨nums_eq_enumerate s hs, enumerate_pairwise s 0 h hs, ?_⟩
+  intro q hq _
+  rw [contains_eq_any s 0 h q (by omega)]
+  exact mem_enumerate_iff_any s 0 h hs q (by omega)
+
+theorem nums_dynamic (s : NumSet.Set) (_hc : canonical s = true) (hd : dynamic s = true) :
+    nums s = none :=
+  nums_none_of_dynamic s hd
+
+example : canonical [⟨1, 3⟩, ⟨5, 5⟩] = true ∧ dynamic [⟨1, 3⟩, ⟨5, 5⟩] = false ∧
+    nums [⟨1, 3⟩, ⟨5, 5⟩] = some [1, 2, 3, 5] := by decide
+
+example : canonical [⟨1, 3⟩, ⟨5, 0⟩] = true ∧ dynamic [⟨1, 3⟩, ⟨5, 0⟩] = true := by decide
 
 end GoImap.C15
